@@ -42,6 +42,8 @@ func runC19(p *Prog, r *Report) {
 	})
 	r.Floor("C19.21/waited-channel-stable", "e13.waited_fields.C19.21/waited-channel-stable", 40)
 	r.Floor("C19.21/waited-channel-stable", "e13.replacements.C19.21/waited-channel-stable", 15)
+	waitersReread(p, r, "C19.24/waiters-reread", func(rel string) bool { return strings.HasPrefix(rel, "protocol/") })
+	r.Floor("C19.24/waiters-reread", "e13c.rereading_waiters.C19.24/waiters-reread", 10)
 	{
 		q := NewQ(p, r)
 		R := "C19.7/refused-device-has-no-effect"
